@@ -259,8 +259,8 @@ func TestC10(t *testing.T) {
 	for _, p := range []interface{}{nil, np, z{}, "", 0, []string(nil), map[string]interface{}(nil)} {
 		ev := &eventlogger.Event{Type: "t", Payload: p}
 		res := callProcess(f, ev)
-		if res.Panic != "" || res.Err != nil || res.Out != ev {
-			run.Violation("shape:zero-payload", fmt.Sprintf("a nil/zero payload (%T) must be forwarded unchanged: out==in %v err=%v panic=%s", p, res.Out == ev, res.Err, res.Panic), nil)
+		if res.Panic != "" || res.Err != nil || res.Out == nil || res.Out.Type != "t" || !reflect.DeepEqual(res.Out.Payload, p) {
+			run.Violation("shape:zero-payload", fmt.Sprintf("a nil/zero payload (%T) must be forwarded unchanged: forwarded %v err=%v panic=%s", p, res.Out != nil, res.Err, res.Panic), nil)
 		}
 		run.Eval(fmt.Sprintf("zero|%T", p))
 	}
